@@ -267,7 +267,8 @@ class ClassicalDataDictionaryStore(ClassicalDataStore):
             _records=dict(records),
             _measured_qubits=dict(measured_qubits),
             _channel_records=dict(channel_records),
-            _measurement_types=dict(measurement_types),
+            # (written as plain integers)
+            _measurement_types={k: MeasurementType(v) for k, v in measurement_types},
         )
 
     def __repr__(self):
